@@ -215,8 +215,26 @@ def _z3v():
         return "?"
 
 
+class _Safe:
+    """a worker that dies takes the whole pool down: turn anything that
+    escapes into an error result"""
+
+    def __init__(self, fn):
+        self.fn = fn
+
+    def __call__(self, item):
+        try:
+            return self.fn(item)
+        except BaseException as ex:          # noqa: B902
+            import traceback
+            return dict(errors=[f"worker crashed on {str(item)[:80]}: "
+                                f"{type(ex).__name__}: {ex} "
+                                f"{traceback.format_exc()[-300:]}"])
+
+
 def pmap(fn, items, jobs=None):
     """parallel map over worker processes (fork); results in order"""
+    fn = _Safe(fn)
     items = list(items)
     jobs = jobs or NCPU
     if jobs <= 1 or len(items) <= 1:
